@@ -448,6 +448,16 @@ class Variable:
                 raise ValueError(
                     msg,
                 )
+        if (
+            self.value_type == Enum
+            and isinstance(value, (int, numpy.integer))
+            and not isinstance(value, bool)
+            and not 0 <= value < len(self.possible_values)
+        ):
+            msg = f"'{value}' is not the index of a known value for '{self.name}'."
+            raise ValueError(
+                msg,
+            )
         if self.value_type in (float, int) and isinstance(value, str):
             try:
                 value = commons.eval_expression(value)
